@@ -25,3 +25,37 @@ def register(S):
                ensures={"asynchronous_call_then_expiry_from_the_wrappers_timeout": (TIMED, P),
                         "returns_that_result": ("same(result, callee_result('__call__', 0))", P)},
                raises={"BaseException": {"props": P, "state": ["n_callees('__call__') == 1 and n_calls() <= 1"]}}, modifies=["**"])
+
+    # ---- restricted(): a view that permits exactly the listed names (C06) ------------------------------------------------------
+    # the two hooks are closures over `obj`, `attrs` and `wattrs` (free variables: any values); membership in a name list is the
+    # pure predicate val_contains(list, name)
+    R = F + "restricted.<locals>.Restricted."
+    S.contract(R + "_rpyc_getattr", params={"self": "val", "name": "val"}, result="val", free={"attrs": "val", "wattrs": "val", "obj": "val"},
+               dynamic_errors=True, effects={"normal": (0, 0), "raise": (0, 0)}, returns_when=["val_contains(attrs, name)"],
+               ensures={"reads_only_a_listed_name_of_the_wrapped_object": (
+                   "val_contains(attrs, name) and n_ev('GetAttr') == 1 and same(ev_val('GetAttr', 0, 1), obj) and "
+                   "same(ev_val('GetAttr', 0, 2), name) and same(result, ev_val('GetAttr', 0, 3)) and n_events() == 1", ["C06"])},
+               raises={"BaseException": {"props": ["C06"], "modifies": [], "state": [
+                   # an unlisted name: AttributeError, and the wrapped object is not touched
+                   "implies(not val_contains(attrs, name), exc_is(exc, 'AttributeError') and n_events() == 0)",
+                   "n_ev('GetAttr') == n_events() and n_events() <= 1"]}}, modifies=[])
+    S.contract(R + "_rpyc_setattr", params={"self": "val", "name": "val", "value": "val"}, free={"attrs": "val", "wattrs": "val", "obj": "val"},
+               dynamic_errors=True, effects={"normal": (0, 0), "raise": (0, 0)}, returns_when=["val_contains(wattrs, name)"],
+               ensures={"writes_only_a_listed_name_of_the_wrapped_object": (
+                   "val_contains(wattrs, name) and n_ev('SetAttr') == 1 and same(ev_val('SetAttr', 0, 1), obj) and "
+                   "same(ev_val('SetAttr', 0, 2), name) and same(ev_val('SetAttr', 0, 4), value) and n_events() == 1", ["C06"])},
+               raises={"BaseException": {"props": ["C06"], "modifies": [], "state": [
+                   "implies(not val_contains(wattrs, name), exc_is(exc, 'AttributeError') and n_events() == 0)",
+                   "n_ev('SetAttr') == n_events() and n_events() <= 1"]}}, modifies=[])
+    # restricted() itself: the view's read hook sees exactly `attrs` and `obj`, its write hook sees `wattrs` - or `attrs` when (and
+    # only when) wattrs is None: an EMPTY write list stays empty (docs: "to disable setting attributes completely") - and the
+    # Python-level __getattr__ / __setattr__ are the same two hooks; building the view touches nothing
+    S.contract(F + "restricted", params={"obj": "val", "attrs": "val", "wattrs": "val"}, result="any", dynamic_errors=True,
+               effects={"normal": (0, 0), "raise": (0, 0)},
+               ensures={"read_list": ("same(hook_free(result, '_rpyc_getattr', 'attrs'), attrs) and same(hook_free(result, '_rpyc_getattr', 'obj'), obj)", ["C06"]),
+                        "write_list": ("same(hook_free(result, '_rpyc_setattr', 'wattrs'), attrs if wattrs is None else wattrs) and "
+                                       "same(hook_free(result, '_rpyc_setattr', 'obj'), obj)", ["C06"]),
+                        "exactly_these_hooks": ("hook_names(result) == ('__getattr__', '__setattr__', '_rpyc_getattr', '_rpyc_setattr') and "
+                                                "hook_is(result, '__getattr__', '_rpyc_getattr') and hook_is(result, '__setattr__', '_rpyc_setattr')", ["C06"]),
+                        "nothing_is_touched": ("n_events() == 0", ["C06"])},
+               raises={}, modifies=[])
